@@ -80,6 +80,7 @@ func hostilize(t *rapid.T, p *model.Package, c *C08Case) {
 			usedTypes[d.Name] = true
 		}
 	}
+	switchAdded := false
 	for _, d := range p.Defs {
 		d.Computed = nil
 		d.Comment = comment("defComment")
@@ -140,6 +141,22 @@ func hostilize(t *rapid.T, p *model.Package, c *C08Case) {
 					d.Values[i].Symbol = n
 					c.Hostile = append(c.Hostile, "symbol:"+n)
 				}
+			}
+		}
+		if d.Kind == model.DRecord && len(d.TypeParams) == 0 && !switchAdded && rapid.IntRange(0, 2).Draw(t, "hostileSwitch") == 0 {
+			// a !switch over an optional field (added for the purpose) whose pattern variable has a
+			// hostile name and is used in the case expression
+			if n, ok := pick(okWords("swvar", hostileMemberNames), usedMembers, "swVarName"); ok && !usedMembers["swTarget"] {
+				prim := rapid.SampledFrom([]string{"int32", "float64", "uint8", "string"}).Draw(t, "swPrim")
+				other := "0"
+				if prim == "string" {
+					other = "\"none\""
+				}
+				d.Fields = append(d.Fields, model.Field{Name: "swTarget", Type: model.Optional(model.Prim(prim))})
+				d.Computed = append(d.Computed, model.Computed{Name: "viaSwitch", Switch: &model.SwitchExpr{Target: "swTarget",
+					Cases: []model.SwitchCase{{Pattern: prim + " " + n, Expr: n}, {Pattern: "null", Expr: other}}}})
+				c.Hostile = append(c.Hostile, "swvar:"+n)
+				switchAdded = true
 			}
 		}
 		if d.Kind == model.DRecord && rapid.IntRange(0, 3).Draw(t, "hostileCF") == 0 {
@@ -342,6 +359,11 @@ func c08Known(c C08Case, msg string) string {
 		// a union that has another (generic, aliased) union as a case: the NDJSON serializer of the
 		// inner variant is specialised after the outer one has already used it
 		return "C08-cpp-ndjson-union-case-is-generic-union-alias"
+	}
+	if strings.Contains(msg, "ndjson/protocols.cc") && strings.Contains(msg, "was not declared in this scope; did you mean \u2018T1\u2019") {
+		// generic union whose type parameter also occurs inside a generic argument of another case:
+		// the serializer template renames the parameter (T1) only where it is a case of its own
+		return "C08-cpp-ndjson-generic-union-param-in-nested-argument"
 	}
 	if strings.Contains(msg, "TypeError: Too few arguments for <class") || strings.Contains(msg, "TypeError: Too many arguments for <class") {
 		return "C08-python-generic-argument-expansion"
@@ -556,7 +578,7 @@ func TestC08(t *testing.T) {
 // continues behind them.
 
 func sweepModel(pos, word string) *model.Package {
-	typeName, field, step, sym, tag, dim, cf, ns := "Rec", "fld", "stp", "sym", "tg", "dm", "", "Mdl"
+	typeName, field, step, sym, tag, dim, cf, ns, swvar := "Rec", "fld", "stp", "sym", "tg", "dm", "", "Mdl", ""
 	switch pos {
 	case "type":
 		typeName = word
@@ -574,6 +596,8 @@ func sweepModel(pos, word string) *model.Package {
 		cf = word
 	case "namespace":
 		ns = word
+	case "swvar":
+		swvar = word
 	}
 	two := uint64(2)
 	rec := &model.Def{Kind: model.DRecord, Name: typeName, Fields: []model.Field{
@@ -586,6 +610,11 @@ func sweepModel(pos, word string) *model.Package {
 		Cases: []*model.Type{model.Ref(ns, typeName), model.Ref(ns, "En")}, Tags: []string{typeName, "En"}}}}}
 	if cf != "" {
 		rec.Computed = []model.Computed{{Name: cf, Expr: "1"}}
+	}
+	if swvar != "" {
+		// a variable declared by a !switch pattern and used in the case expression
+		rec.Fields = append(rec.Fields, model.Field{Name: "opt", Type: model.Optional(model.Prim("int32"))})
+		rec.Computed = append(rec.Computed, model.Computed{Name: "swv", Switch: &model.SwitchExpr{Target: "opt", Cases: []model.SwitchCase{{Pattern: "int32 " + swvar, Expr: swvar}, {Pattern: "null", Expr: "0"}}}})
 	}
 	en := &model.Def{Kind: model.DEnum, Name: "En", ListValues: true, Values: []model.EnumVal{{Symbol: sym}, {Symbol: "other2", Value: 1, UValue: 1}}}
 	fl := &model.Def{Kind: model.DFlags, Name: "Fl", ListValues: true, Values: []model.EnumVal{{Symbol: sym, Value: 1, UValue: 1}, {Symbol: "other3", Value: 2, UValue: 2}}}
@@ -605,7 +634,7 @@ func TestC08Sweep(t *testing.T) {
 		jobs = append(jobs, job{"type", w}, job{"namespace", w})
 	}
 	for _, w := range hostileMemberNames {
-		for _, pos := range []string{"member", "step", "symbol", "tag", "dim", "computed"} {
+		for _, pos := range []string{"member", "step", "symbol", "tag", "dim", "computed", "swvar"} {
 			jobs = append(jobs, job{pos, w})
 		}
 	}
